@@ -299,3 +299,88 @@ def check_C12(tier):
     v.coverage["states"] += st
     v.coverage["transitions"] += cases
     return v
+
+
+# ---------------------------------------------------------------------------
+# C16: GP-fit fault enumeration (patterns generated by TLC from GPTrain.tla)
+# ---------------------------------------------------------------------------
+def _gptrain_cfg(nfit, maxfaults, hasnoise, shrink=True):
+    return ("SPECIFICATION Spec\nCONSTANTS\n  NFit = %d\n  MaxFaults = %d\n  NRefit = 3\n  NTryFit = 10\n"
+            "  RemoveAfter = 1\n  N0 = 6\n  HasNoise = %s\n  ShrinkNoise = %s\n"
+            "INVARIANT FitArgsConsistent\nINVARIANT NeverAborts\nPROPERTY RunCompletes\n"
+            % (nfit, maxfaults, "TRUE" if hasnoise else "FALSE", "TRUE" if shrink else "FALSE"))
+
+
+def check_C16(tier):
+    import copy
+    import os
+    import shutil
+    from .tlaval import parse_dump
+    from . import scenarios as S
+    v0_states = 0
+    patterns = None
+    dinfo = []
+    for hasnoise in (True, False):
+        r = run_tlc("GPTrain", cfg=_gptrain_cfg(8, 4, hasnoise), timeout=600, dump="out", keep=True)
+        dinfo.append({"spec": "GPTrain", "hasnoise": hasnoise, **r.summary()})
+        if not r.ok:
+            shutil.rmtree(r.workdir, ignore_errors=True)
+            if r.violated:
+                vv = Verdict("C16", tier, "fault_enumeration")
+                vv.violation("C16.design_model:" + ",".join(r.violated), site="GPTrain.tla", where=str(hasnoise))
+                return vv
+            raise MachineryError("GPTrain TLC failed: %s %s" % (r.summary(), r.output[-1200:]))
+        v0_states += r.distinct_states
+        if patterns is None:
+            sts = parse_dump(os.path.join(r.workdir, "out.dump"))
+            patterns = sorted({tuple(sorted(st["pattern"])) for st in sts}, key=lambda p: (len(p), p))
+        shutil.rmtree(r.workdir, ignore_errors=True)
+
+    def consecutive(p):
+        return len(p) >= 2 and all(b - a == 1 for a, b in zip(p, p[1:]))
+    if tier == "quick":
+        sel = [p for p in patterns if len(p) == 1]
+        sel += [p for p in patterns if consecutive(p)]
+        rest = [p for p in patterns if len(p) in (2, 3) and not consecutive(p)]
+        sel += rest[:: max(1, len(rest) // 14)]
+        patterns_used = sorted(set(sel), key=lambda p: (len(p), p))
+    else:
+        patterns_used = patterns
+    box = S.box_geom(2, x0=[2.0, -1.0])
+    tq = {"family": "quad", "min": [0.5, 0.8], "eig": [1.0, 6.0], "rot_seed": 9}
+    scs = []
+    for mode in ("det", "declared", "specified"):
+        noise = {"mode": mode, "sigma": 0.3, "sd_kind": "hetero" if mode == "specified" else "const"}
+        for p in patterns_used:
+            if not p:
+                continue
+            scs.append({"id": f"g_{mode}_" + "_".join(map(str, p)), "D": 2, "geom": box, "target": tq,
+                        "noise": noise, "cons": None,
+                        "options": {"max_fun_evals": 60, "noise_final_samples": 2}, "seed": 21,
+                        "faults": {"fit": list(p)}, "tags": ["fitfault", mode, f"n{len(p)}",
+                                                            "consecutive" if consecutive(p) else "scattered"]})
+    injected = {}
+
+    def post(v, results):
+        # every planned fault must actually have been injected (invocation reached)
+        for name, scs_, res in results:
+            for i, sc in enumerate(scs_):
+                inj = sum(1 for e in res["events"][i] if e["e"] == "FitAttempt" and e["injected"])
+                injected[sc["id"]] = (inj, len(sc["faults"]["fit"]))
+        v.coverage["fault_patterns"] = len(patterns_used)
+        v.coverage["patterns_total_in_model"] = len(patterns)
+        v.coverage["faults_planned_vs_injected"] = {
+            "runs_with_all_faults_injected": sum(1 for a, b in injected.values() if a == b),
+            "runs": len(injected)}
+        v.coverage["gptrain_model"] = dinfo
+        v.coverage["exhaustive"] = tier == "thorough"
+    # "all other guarantees continue to hold": every clause of the bounds / budget / truthful-result
+    # properties counts for C16 on a faulted run
+    v = run_level_check("C16", tier, [], level="fault_enumeration", design_cfgs=(),
+                        extra_panels=[("c16faults", scs)], post=post,
+                        clause_prefixes=["C16.", "C09.", "C01.", "C03.", "C04.", "C05."])
+    v.coverage["states"] += v0_states
+    v.coverage["rule"] = ("fault patterns over the first 8 GP.fit invocations enumerated by TLC from GPTrain.tla "
+                          "(singles, runs of 2-4, scattered pairs/triples; thorough: all patterns with <= 4 faults) "
+                          "x {deterministic, declared noise, specified noise}; GP.fit raises LinAlgError at exactly those invocations")
+    return v
